@@ -347,6 +347,23 @@ func verdict(c gcase) (violation, infra string) {
 				"(eps=%.3e covered=%.6g) for %s; all window sums %v", j, (c.Start+j)%c.L(), sum, vw, d, tol, b.Eps, b.Covered, c, obs.sums), ""
 		}
 	}
+	// "fractional rates being carried to later ticks rather than lost" - also from one window into the
+	// next: the requests of the windows evaluated so far add up to the sum of their real-valued tick
+	// rates rounded down, so the running total is within ONE request (not one per window) of the
+	// running total of the configured volumes, discretisation error aside.
+	var cum int64
+	var cumVol, cumTol float64
+	for j, sum := range obs.sums {
+		vw := c.windowVolume(c.Start + j)
+		cum += sum
+		cumVol += vw
+		cumTol += b.Eps*vw + fpSlack(vw, b)
+		if d := math.Abs(float64(cum) - cumVol); d > cumTol+1 {
+			return fmt.Sprintf("windows 0..%d together requested %d, their configured volumes add up to %.6f: off by %.6f > allowed %.6f "+
+				"(one carried request plus the discretisation error of %d windows; eps=%.3e) - fractions were lost between windows - for %s; window sums %v",
+				j, cum, cumVol, d, cumTol+1, j+1, b.Eps, c, obs.sums), ""
+		}
+	}
 	if obs.overBy > 1 {
 		j, k := obs.overAt[0], obs.overAt[1]
 		return fmt.Sprintf("window %d tick %d requests %d, more than one above the %d requested at the tick nearest the peak (ticks %v) for %s",
@@ -655,6 +672,12 @@ func genCase(t *rapid.T) gcase {
 	}
 	if extra := int(uniformInt64(t, 0, 2, "extraWindows")); (c.Windows+extra)*c.N <= maxTicks {
 		c.Windows += extra
+	}
+	// small volumes over many windows: whole requests only come about by carrying fractions across windows
+	if c.Volume <= 50 && choose(t, "manyWindows", 1, 1) == 1 {
+		if extra := int(uniformInt64(t, 4, 24, "manyWindowsExtra")); (c.Windows+extra)*c.N <= maxTicks {
+			c.Windows += extra
+		}
 	}
 	c.BaseUnix = uniformInt64(t, 0, 4_000_000_000, "base")
 	c.Entry = []string{"calculator", "rates"}[choose(t, "entry", 1, 1)]
